@@ -93,7 +93,7 @@ def gen_zone(r, idx):
                 rn = 'R%d_%d' % (idx, e)
                 rulesets += gen_ruleset(r, rn, year - r.choice([0, 0, 1, 5]))
                 rules = rn
-                fmt = r.choice(['X%sT', 'A%sT', '%z', 'STD/DST', '+03/+04', 'GMT/BST'])
+                fmt = r.choice(['XX%sT', 'AB%sT', '%z', 'STD/DST', '+03/+04', 'GMT/BST'])  # >= 3 characters even with an empty letter
             elif k < 0.7:
                 rules = hms(r.choice([3600, 1800, 7200]))  # fixed saving: permanent DST era
                 fmt = r.choice(['XDT', '%z', 'SUM'])
